@@ -14,6 +14,7 @@ pub fn main_loop(run: impl Fn(&[&str]) -> String) {
     let toks: Vec<&str> = line.split_whitespace().collect();
     let res = if toks.is_empty() { String::new() } else { run(&toks) };
     writeln!(out, "{res}").unwrap();
+    out.flush().unwrap();
   }
   out.flush().unwrap();
 }
